@@ -15,18 +15,26 @@ use crate::{
     error::CompilerError,
 };
 
-/// Deepest nesting that is compiled: braces, parentheses, operators, choices
-/// and `else` chains inside one another, and runs of choices one after the
-/// other in a weave (the emitter puts what follows a run inside a container of
-/// its own). Authored stories stay below ten; a story twice as deep as this
-/// could not be loaded anyway, the runtime's JSON reader stops at 128 nested
-/// containers.
-pub(crate) const MAX_NESTING: usize = 64;
+/// Deepest nesting that is compiled: braces, parentheses, choices and `else`
+/// chains inside one another, and runs of choices one after the other in a
+/// weave (the emitter puts what follows a run inside a container of its own).
+/// Authored stories stay below ten, and a story nested deeper than this could
+/// not be loaded anyway: every level is at least one container inside another
+/// and the runtime's JSON reader stops at 128.
+pub(crate) const MAX_NESTING: usize = 128;
 
-/// Stack the held levels may use. Unoptimised builds spend tens of kilobytes
-/// per level, so there the stack runs out long before the level count does;
-/// half of the 2 MiB a spawned thread gets by default is left for the rest.
-const STACK_BUDGET: usize = 1024 * 1024;
+/// Tallest expression tree that is compiled (operators, calls and `{…}` parts
+/// of string literals inside one another). The emitter walks expressions with
+/// a function that cannot fail, so this limit cannot lean on the stack check
+/// below and is kept smaller.
+pub(crate) const MAX_EXPRESSION_HEIGHT: usize = 64;
+
+/// Stack the held levels may use. An optimised build needs 4 to 6 KiB per
+/// level and never gets here; an unoptimised one needs about 30 KiB, so there
+/// the stack would run out long before the level count does. A spawned thread
+/// gets 2 MiB by default: this leaves room for the tallest expression
+/// (16 KiB per level unoptimised) at the deepest point.
+const STACK_BUDGET: usize = 768 * 1024;
 
 thread_local! {
     static HELD: Cell<usize> = const { Cell::new(0) };
@@ -36,10 +44,17 @@ thread_local! {
 /// One level of nesting, given back when dropped.
 pub(crate) struct Level(());
 
+pub(crate) fn expression_too_tall() -> CompilerError {
+    CompilerError::invalid_source(format!(
+        "expression too complex: more than {MAX_EXPRESSION_HEIGHT} operators, calls or string \
+         interpolations inside one another"
+    ))
+}
+
 pub(crate) fn too_deep() -> CompilerError {
     CompilerError::invalid_source(format!(
-        "nesting too deep: more than {MAX_NESTING} levels of braces, parentheses, operators, \
-         choices or else-branches inside one another (a run of choices after another run in \
+        "nesting too deep: more than {MAX_NESTING} levels of braces, parentheses, choices or \
+         else-branches inside one another (a run of choices after another run in \
          the same weave counts as inside it)"
     ))
 }
@@ -72,8 +87,8 @@ impl Drop for Level {
 }
 
 /// The emitter nests more than the source shows: whatever follows a run of
-/// choices goes into a gather container inside the current one, and so does
-/// whatever follows the next run inside that. Count those along with the
+/// choices (or an indented labelled gather) goes into a gather container inside
+/// the current one, and so does whatever follows the next run inside that. Count those along with the
 /// nesting that is visible in the tree, before any pass walks the story.
 pub(crate) fn check_weave_depth(story: &ParsedStory) -> Result<(), CompilerError> {
     fn flows(list: &[Flow]) -> Result<(), CompilerError> {
@@ -123,6 +138,8 @@ pub(crate) fn check_weave_depth(story: &ParsedStory) -> Result<(), CompilerError
                         nodes(branch, depth + 1)?;
                     }
                 }
+                // What follows an indented labelled gather is emitted inside it.
+                Node::GatherLabel { indent, .. } if *indent > 0 => depth += 1,
                 _ => {}
             }
         }
